@@ -1,6 +1,1837 @@
-//! C09 — not built yet.
-use mcx::{Ctx, Value};
-pub fn run(_ctx: &Ctx, _replay: Option<&Value>) -> i32 {
-    eprintln!("C09: check not built yet");
-    2
+//! C09 — prover-supplied hints cannot change results.
+//!
+//! Seam: `DishonestHost`, a `processor::Host` that wraps the honest `DefaultHost<MemAdviceProvider>`,
+//! forwards every request, and afterwards replaces what the honest host answered by scripted
+//! content: the value(s) a hint injector (U32Clz/Ctz/Clo/Cto, ILog2, Ext2Inv, U64Div) pushed onto
+//! the advice stack, the node word pushed by MerkleNodeToStack, the Merkle path returned for
+//! GetMerklePath / UpdateMerkleNode. If the honest injector refuses (zero operand) the dishonest
+//! host pushes its scripted hint anyway instead of failing. A second kind of dishonesty is a
+//! *lying Merkle store*: the honest advice provider on top of a store in which one inner-node
+//! entry was altered / removed.
+//!
+//! Families (all enumerated completely, no sampling):
+//!   hint    (instruction, operand tuple, scripted hint tuple | honest host)
+//!   mtree   (mtree_get/set/verify, tree, node (d,i), operand variant, deviation | honest host)
+//!   advice  adv_push.n / adv_loadw / adv_pipe on a scripted advice stack of distinct values
+//! Oracle: a run that completes must leave exactly [correct result, untouched sentinels] on the
+//! stack; `Err` and panics are "does not complete". With the honest host every valid operand must
+//! complete, every invalid one (ilog2 0, zero divisor, zero ext2 element, false Merkle claim) must not.
+//! References (clz/ctz/clo/cto, floor log2, Goldilocks / ext2 arithmetic, u64 division, Merkle
+//! tree over `Rpo256::merge` as the trusted primitive) are written here from the documentation.
+
+use crate::common::*;
+use mcx::space::{deviations, tuples, SplitMix};
+use mcx::{guard, json, Ctx, Tier, Value};
+use processor::crypto::{MerklePath, MerkleStore, MerkleTree, Rpo256, RpoDigest};
+use processor::{
+    AdviceExtractor, AdviceInjector, AdviceInputs, AdviceProvider, AdviceSource, ContextId, DefaultHost,
+    ExecutionError, ExecutionOptions, Host, HostResponse, MemAdviceProvider, Process, ProcessState, Program,
+};
+use rayon::prelude::*;
+use std::collections::{BTreeMap, BTreeSet};
+use vm_core::crypto::merkle::InnerNodeInfo;
+use vm_core::{Felt, StarkField};
+
+type W = [u64; 4];
+
+// ================================================================================================
+// the dishonest host
+// ================================================================================================
+
+#[derive(Clone, Debug, Default)]
+struct Script {
+    /// replaces what a hint injector pushed; pop order (element 0 is popped first by the VM)
+    hint: Option<Vec<u64>>,
+    /// replaces the node word pushed by MerkleNodeToStack (word order = pop order)
+    node: Option<W>,
+    /// replaces single elements of the Merkle path answered by the host (position 0 = sibling of the node)
+    path_edits: Vec<(usize, W)>,
+    /// replaces the whole Merkle path answered by the host
+    path_whole: Option<Vec<W>>,
+}
+
+#[derive(Debug, Default)]
+struct HostLog {
+    hint_injections: u32,
+    honest_hint: Option<Vec<u64>>,
+    honest_hint_err: Option<String>,
+    honest_node: Option<W>,
+    honest_path: Option<Vec<W>>,
+    answered_path: Option<Vec<W>>,
+}
+
+struct DishonestHost {
+    inner: DefaultHost<MemAdviceProvider>,
+    script: Script,
+    log: HostLog,
+}
+
+fn dg(w: &W) -> RpoDigest {
+    RpoDigest::new([Felt::new(w[0]), Felt::new(w[1]), Felt::new(w[2]), Felt::new(w[3])])
+}
+
+fn wd(d: &RpoDigest) -> W {
+    let e = d.as_elements();
+    [e[0].as_int(), e[1].as_int(), e[2].as_int(), e[3].as_int()]
+}
+
+impl DishonestHost {
+    fn new(advice: AdviceInputs, script: Script) -> Self {
+        DishonestHost { inner: host_from(advice), script, log: HostLog::default() }
+    }
+
+    /// the elements the honest injector pushed since `before` (pop order); if `scripted` is given they
+    /// are popped again and the scripted ones pushed in their place
+    fn replace_pushed<S: ProcessState>(
+        &mut self,
+        process: &S,
+        before: usize,
+        scripted: Option<&[u64]>,
+    ) -> Result<Vec<u64>, ExecutionError> {
+        let after = self.inner.advice_provider().stack().len();
+        assert!(after >= before, "harness: an injector shrank the advice stack");
+        let honest: Vec<u64> =
+            self.inner.advice_provider().stack()[before..].iter().rev().map(|f| f.as_int()).collect();
+        if let Some(vals) = scripted {
+            for _ in before..after {
+                self.inner.advice_provider_mut().pop_stack(process)?;
+            }
+            for v in vals.iter().rev() {
+                self.inner.advice_provider_mut().push_stack(AdviceSource::Value(Felt::new(*v)))?;
+            }
+        }
+        Ok(honest)
+    }
+
+    fn edit_path(&mut self, path: MerklePath) -> MerklePath {
+        let honest: Vec<W> = path.nodes().iter().map(wd).collect();
+        let mut out = match &self.script.path_whole {
+            Some(p) => p.clone(),
+            None => honest.clone(),
+        };
+        for (j, w) in &self.script.path_edits {
+            if *j < out.len() {
+                out[*j] = *w;
+            }
+        }
+        self.log.honest_path = Some(honest);
+        self.log.answered_path = Some(out.clone());
+        MerklePath::new(out.iter().map(dg).collect())
+    }
+}
+
+impl Host for DishonestHost {
+    fn get_advice<S: ProcessState>(
+        &mut self,
+        process: &S,
+        extractor: AdviceExtractor,
+    ) -> Result<HostResponse, ExecutionError> {
+        let is_path = matches!(extractor, AdviceExtractor::GetMerklePath);
+        let r = self.inner.get_advice(process, extractor)?;
+        match r {
+            HostResponse::MerklePath(p) if is_path => Ok(HostResponse::MerklePath(self.edit_path(p))),
+            other => Ok(other),
+        }
+    }
+
+    fn set_advice<S: ProcessState>(
+        &mut self,
+        process: &S,
+        injector: AdviceInjector,
+    ) -> Result<HostResponse, ExecutionError> {
+        use AdviceInjector::*;
+        match injector {
+            U32Clz | U32Ctz | U32Clo | U32Cto | ILog2 | Ext2Inv | U64Div => {
+                self.log.hint_injections += 1;
+                let before = self.inner.advice_provider().stack().len();
+                let scripted = self.script.hint.clone();
+                match self.inner.set_advice(process, injector) {
+                    Ok(r) => {
+                        let honest = self.replace_pushed(process, before, scripted.as_deref())?;
+                        self.log.honest_hint = Some(honest);
+                        Ok(r)
+                    }
+                    Err(e) => {
+                        self.log.honest_hint_err = Some(format!("{e:?}"));
+                        match scripted {
+                            // a dishonest host does not have to refuse: it answers with its own values
+                            Some(vals) => {
+                                for v in vals.iter().rev() {
+                                    self.inner
+                                        .advice_provider_mut()
+                                        .push_stack(AdviceSource::Value(Felt::new(*v)))?;
+                                }
+                                Ok(HostResponse::None)
+                            }
+                            None => Err(e),
+                        }
+                    }
+                }
+            }
+            MerkleNodeToStack => {
+                let before = self.inner.advice_provider().stack().len();
+                let r = self.inner.set_advice(process, injector)?;
+                let scripted = self.script.node;
+                let honest = self.replace_pushed(process, before, scripted.as_ref().map(|w| &w[..]))?;
+                if honest.len() == 4 {
+                    self.log.honest_node = Some([honest[0], honest[1], honest[2], honest[3]]);
+                }
+                Ok(r)
+            }
+            UpdateMerkleNode => match self.inner.set_advice(process, injector)? {
+                HostResponse::MerklePath(p) => Ok(HostResponse::MerklePath(self.edit_path(p))),
+                other => Ok(other),
+            },
+            _ => self.inner.set_advice(process, injector),
+        }
+    }
+}
+
+fn exec<H: Host>(program: &Program, stack_top_first: &[u64], host: H) -> Outcome {
+    let si = stack_inputs(stack_top_first);
+    match guard::catch(|| processor::execute(program, si, host, ExecutionOptions::default())) {
+        Err(p) => Outcome::Panic(p),
+        Ok(Err(e)) => Outcome::Err(format!("{e:?}")),
+        Ok(Ok(t)) => Outcome::Ok(t.stack_outputs().stack().to_vec()),
+    }
+}
+
+fn outcome_class(o: &Outcome) -> String {
+    match o {
+        Outcome::Ok(_) => "ok".into(),
+        Outcome::Err(e) => format!("err:{}", err_variant(e)),
+        Outcome::AsmErr(_) => "asm_err".into(),
+        Outcome::Panic(p) => {
+            // one line, without the operand values of assert_eq! ("... left: [..] right: [..] @ file:line")
+            let s = guard::short_panic(p).split_whitespace().collect::<Vec<_>>().join(" ");
+            let s = match (s.find(" left: "), s.rfind(" @ ")) {
+                (Some(i), Some(j)) if i < j => format!("{}{}", &s[..i], &s[j..]),
+                _ => s,
+            };
+            format!("panic:{}", s.chars().take(120).collect::<String>())
+        }
+    }
+}
+
+/// final stacks are compared without their trailing zeros (the VM pads to depth 16 with zeros and
+/// keeps deeper zero elements in the overflow table; sentinels are non-zero)
+fn norm(v: &[u64]) -> Vec<u64> {
+    let mut v = v.to_vec();
+    while v.last() == Some(&0) {
+        v.pop();
+    }
+    v
+}
+
+// ================================================================================================
+// references (written from docs/src/user_docs/assembly/*.md)
+// ================================================================================================
+
+fn ref_clz(n: u32) -> u64 {
+    let mut c = 0;
+    for bit in (0..32).rev() {
+        if (n >> bit) & 1 == 1 {
+            break;
+        }
+        c += 1;
+    }
+    c
+}
+fn ref_ctz(n: u32) -> u64 {
+    let mut c = 0;
+    for bit in 0..32 {
+        if (n >> bit) & 1 == 1 {
+            break;
+        }
+        c += 1;
+    }
+    c
+}
+fn ref_clo(n: u32) -> u64 {
+    ref_clz(!n)
+}
+fn ref_cto(n: u32) -> u64 {
+    ref_ctz(!n)
+}
+/// floor(log2 n) for n > 0
+fn ref_ilog2(n: u64) -> u64 {
+    let mut r = 0;
+    let mut m = n;
+    while m > 1 {
+        m >>= 1;
+        r += 1;
+    }
+    r
+}
+
+fn fadd(a: u64, b: u64) -> u64 {
+    ((a as u128 + b as u128) % P as u128) as u64
+}
+fn fsub(a: u64, b: u64) -> u64 {
+    ((a as u128 + P as u128 - (b % P) as u128) % P as u128) as u64
+}
+fn fmul(a: u64, b: u64) -> u64 {
+    ((a as u128 * b as u128) % P as u128) as u64
+}
+fn fpow(mut b: u64, mut e: u64) -> u64 {
+    let mut r = 1u64;
+    while e > 0 {
+        if e & 1 == 1 {
+            r = fmul(r, b);
+        }
+        b = fmul(b, b);
+        e >>= 1;
+    }
+    r
+}
+/// product in F_p[x]/(x^2 - x + 2): (a0 + a1 x)(b0 + b1 x), using x^2 = x - 2
+fn ext2_mul(a: (u64, u64), b: (u64, u64)) -> (u64, u64) {
+    let a0b0 = fmul(a.0, b.0);
+    let a1b1 = fmul(a.1, b.1);
+    let c0 = fsub(a0b0, fmul(2, a1b1));
+    let c1 = fadd(fadd(fmul(a.0, b.1), fmul(a.1, b.0)), a1b1);
+    (c0, c1)
+}
+/// inverse via the norm: (a0 + a1 x)(a0 + a1 - a1 x) = a0^2 + a0 a1 + 2 a1^2
+fn ext2_inv(a: (u64, u64)) -> (u64, u64) {
+    let norm = fadd(fadd(fmul(a.0, a.0), fmul(a.0, a.1)), fmul(2, fmul(a.1, a.1)));
+    let ninv = fpow(norm, P - 2);
+    let r = (fmul(fadd(a.0, a.1), ninv), fmul(fsub(0, a.1), ninv));
+    assert_eq!(ext2_mul(a, r), (1, 0), "harness: ext2 reference inverse is wrong");
+    r
+}
+
+// ================================================================================================
+// family "hint"
+// ================================================================================================
+
+#[derive(Clone, Copy, PartialEq, Eq, Debug, PartialOrd, Ord)]
+enum HI {
+    Clz,
+    Ctz,
+    Clo,
+    Cto,
+    Ilog2,
+    Ext2Inv,
+    Ext2Div,
+    U64Div,
+    U64Mod,
+    U64DivMod,
+}
+
+const HINT_INSTRS: [HI; 10] =
+    [HI::Clz, HI::Ctz, HI::Clo, HI::Cto, HI::Ilog2, HI::Ext2Inv, HI::Ext2Div, HI::U64Div, HI::U64Mod, HI::U64DivMod];
+
+impl HI {
+    fn name(self) -> &'static str {
+        match self {
+            HI::Clz => "u32clz",
+            HI::Ctz => "u32ctz",
+            HI::Clo => "u32clo",
+            HI::Cto => "u32cto",
+            HI::Ilog2 => "ilog2",
+            HI::Ext2Inv => "ext2inv",
+            HI::Ext2Div => "ext2div",
+            HI::U64Div => "std::math::u64::div",
+            HI::U64Mod => "std::math::u64::mod",
+            HI::U64DivMod => "std::math::u64::divmod",
+        }
+    }
+    fn from_name(s: &str) -> HI {
+        *HINT_INSTRS.iter().find(|h| h.name() == s).expect("unknown instruction in replay case")
+    }
+    fn src(self) -> String {
+        match self {
+            HI::U64Div => "use.std::math::u64 begin exec.u64::div end".into(),
+            HI::U64Mod => "use.std::math::u64 begin exec.u64::mod end".into(),
+            HI::U64DivMod => "use.std::math::u64 begin exec.u64::divmod end".into(),
+            _ => format!("begin {} end", self.name()),
+        }
+    }
+    fn arity(self) -> usize {
+        match self {
+            HI::Clz | HI::Ctz | HI::Clo | HI::Cto | HI::Ilog2 => 1,
+            HI::Ext2Inv => 2,
+            _ => 4,
+        }
+    }
+    fn result_len(self) -> usize {
+        match self {
+            HI::Clz | HI::Ctz | HI::Clo | HI::Cto | HI::Ilog2 => 1,
+            HI::U64DivMod => 4,
+            _ => 2,
+        }
+    }
+    /// operands on which the instruction is defined to succeed
+    fn valid(self, ops: &[u64]) -> bool {
+        match self {
+            HI::Clz | HI::Ctz | HI::Clo | HI::Cto => true,
+            HI::Ilog2 => ops[0] != 0,
+            HI::Ext2Inv => !(ops[0] == 0 && ops[1] == 0),
+            HI::Ext2Div => !(ops[0] == 0 && ops[1] == 0),
+            HI::U64Div | HI::U64Mod | HI::U64DivMod => !(ops[0] == 0 && ops[1] == 0),
+        }
+    }
+    /// is `res` (top first) the mathematically correct result for `ops` (top first)?
+    fn result_ok(self, ops: &[u64], res: &[u64]) -> bool {
+        match self {
+            HI::Clz => res[0] == ref_clz(ops[0] as u32),
+            HI::Ctz => res[0] == ref_ctz(ops[0] as u32),
+            HI::Clo => res[0] == ref_clo(ops[0] as u32),
+            HI::Cto => res[0] == ref_cto(ops[0] as u32),
+            HI::Ilog2 => ops[0] != 0 && res[0] == ref_ilog2(ops[0]),
+            // [a1, a0] -> [r1, r0] with r * a = 1
+            HI::Ext2Inv => ext2_mul((ops[1], ops[0]), (res[1], res[0])) == (1, 0),
+            // [b1, b0, a1, a0] -> [c1, c0] with c * b = a and b != 0
+            HI::Ext2Div => {
+                !(ops[0] == 0 && ops[1] == 0) && ext2_mul((res[1], res[0]), (ops[1], ops[0])) == (ops[3], ops[2])
+            }
+            HI::U64Div | HI::U64Mod | HI::U64DivMod => {
+                let b = (ops[0] << 32) + ops[1];
+                let a = (ops[2] << 32) + ops[3];
+                if b == 0 {
+                    return false;
+                }
+                let (q, r) = (a / b, a % b);
+                let qq = [q >> 32, q & 0xffff_ffff];
+                let rr = [r >> 32, r & 0xffff_ffff];
+                match self {
+                    HI::U64Div => res == qq,
+                    HI::U64Mod => res == rr,
+                    _ => res[..2] == rr && res[2..] == qq,
+                }
+            }
+        }
+    }
+    fn expected_text(self, ops: &[u64]) -> String {
+        if !self.valid(ops) {
+            return "must not complete (operand outside the instruction's domain)".into();
+        }
+        match self {
+            HI::Clz => format!("[{}]", ref_clz(ops[0] as u32)),
+            HI::Ctz => format!("[{}]", ref_ctz(ops[0] as u32)),
+            HI::Clo => format!("[{}]", ref_clo(ops[0] as u32)),
+            HI::Cto => format!("[{}]", ref_cto(ops[0] as u32)),
+            HI::Ilog2 => format!("[{}]", ref_ilog2(ops[0])),
+            HI::Ext2Inv => {
+                let r = ext2_inv((ops[1], ops[0]));
+                format!("[{}, {}]", r.1, r.0)
+            }
+            HI::Ext2Div => {
+                let r = ext2_mul((ops[3], ops[2]), ext2_inv((ops[1], ops[0])));
+                format!("[{}, {}]", r.1, r.0)
+            }
+            _ => {
+                let b = (ops[0] << 32) + ops[1];
+                let a = (ops[2] << 32) + ops[3];
+                format!("q={} r={} (limbs hi,lo)", a / b, a % b)
+            }
+        }
+    }
+    /// the honest hint in pop order, where the reference can compute it
+    fn honest_hint(self, ops: &[u64]) -> Option<Vec<u64>> {
+        if !self.valid(ops) {
+            return None;
+        }
+        Some(match self {
+            HI::Clz => vec![ref_clz(ops[0] as u32)],
+            HI::Ctz => vec![ref_ctz(ops[0] as u32)],
+            HI::Clo => vec![ref_clo(ops[0] as u32)],
+            HI::Cto => vec![ref_cto(ops[0] as u32)],
+            HI::Ilog2 => vec![ref_ilog2(ops[0])],
+            HI::Ext2Inv | HI::Ext2Div => {
+                let r = ext2_inv((ops[1], ops[0]));
+                vec![r.0, r.1]
+            }
+            _ => {
+                let b = (ops[0] << 32) + ops[1];
+                let a = (ops[2] << 32) + ops[3];
+                let (q, r) = (a / b, a % b);
+                vec![q & 0xffff_ffff, q >> 32, r & 0xffff_ffff, r >> 32]
+            }
+        })
+    }
+}
+
+/// distinct values placed below the operands; none of them is a possible count / limb
+fn sentinels(n: usize) -> Vec<u64> {
+    (0..n as u64).map(|k| 0xC0FF_EE00_0000_0100 + 0x0101 * k).collect()
+}
+
+struct Progs {
+    hint: BTreeMap<HI, Program>,
+    mtree: BTreeMap<&'static str, Program>,
+    advice: BTreeMap<String, Program>,
+}
+
+fn advice_srcs() -> Vec<(String, String)> {
+    let mut v = vec![];
+    for n in 1..=16 {
+        v.push((format!("adv_push.{n}"), format!("begin adv_push.{n} end")));
+        v.push((format!("adv_push.{n}+1"), format!("begin adv_push.{n} adv_push.1 end")));
+    }
+    v.push(("adv_loadw".into(), "begin adv_loadw end".into()));
+    v.push(("adv_loadw+1".into(), "begin adv_loadw adv_push.1 end".into()));
+    v.push(("adv_pipe".into(), "begin adv_pipe end".into()));
+    v.push(("adv_pipe+1".into(), "begin adv_pipe adv_push.1 end".into()));
+    v
+}
+
+const MTREE_SRCS: [(&str, &str); 4] = [
+    ("mtree_get", "begin mtree_get end"),
+    ("mtree_set", "begin mtree_set end"),
+    ("mtree_verify", "begin mtree_verify end"),
+    ("mtree_set;mtree_get", "begin mtree_set dropw movup.5 movup.5 mtree_get end"),
+];
+
+fn compile_all() -> Progs {
+    let asm = assembler();
+    let mut hint = BTreeMap::new();
+    for hi in HINT_INSTRS {
+        hint.insert(hi, asm.compile(hi.src()).expect("family program must assemble"));
+    }
+    let mut mtree = BTreeMap::new();
+    for (k, s) in MTREE_SRCS {
+        mtree.insert(k, asm.compile(s).expect("family program must assemble"));
+    }
+    let mut advice = BTreeMap::new();
+    for (k, s) in advice_srcs() {
+        advice.insert(k, asm.compile(&s).expect("family program must assemble"));
+    }
+    Progs { hint, mtree, advice }
+}
+
+#[derive(Default, Clone, Debug)]
+struct Stats {
+    pairs: u64,
+    honest_runs: u64,
+    dishonest_runs: u64,
+    nontrivial: u64,
+    completions: u64,
+    wrong: u64,
+    refusals: u64,
+    panics: u64,
+    injector_not_called_once: u64,
+    honest_hint_differs_from_reference: u64,
+    kinds: BTreeMap<String, u64>,
+    /// operand tuple -> scripted hints with which the run completed although the oracle rejects it
+    accepted_wrong: BTreeMap<Vec<u64>, Vec<Vec<u64>>>,
+}
+
+/// operands whose accepted wrong hints are always written out (besides the smallest few)
+const HIGHLIGHT: [u64; 4] = [0, 1, (1 << 40) + 5, P - 1];
+
+fn ranges(v: &[u64]) -> String {
+    let mut out: Vec<String> = vec![];
+    let mut i = 0;
+    while i < v.len() {
+        let mut j = i;
+        while j + 1 < v.len() && v[j + 1] == v[j] + 1 {
+            j += 1;
+        }
+        out.push(if j == i { format!("{}", v[i]) } else { format!("{}..={}", v[i], v[j]) });
+        i = j + 1;
+    }
+    out.join(",")
+}
+
+impl Stats {
+    fn merge(mut self, o: Stats) -> Stats {
+        self.pairs += o.pairs;
+        self.honest_runs += o.honest_runs;
+        self.dishonest_runs += o.dishonest_runs;
+        self.nontrivial += o.nontrivial;
+        self.completions += o.completions;
+        self.wrong += o.wrong;
+        self.refusals += o.refusals;
+        self.panics += o.panics;
+        self.injector_not_called_once += o.injector_not_called_once;
+        self.honest_hint_differs_from_reference += o.honest_hint_differs_from_reference;
+        for (k, v) in o.kinds {
+            *self.kinds.entry(k).or_insert(0) += v;
+        }
+        self.accepted_wrong.extend(o.accepted_wrong);
+        // keep the evidence small: the smallest operand tuples and the highlighted ones
+        let keep: BTreeSet<Vec<u64>> = self
+            .accepted_wrong
+            .keys()
+            .filter(|k| !(k.len() == 1 && HIGHLIGHT.contains(&k[0])))
+            .take(4)
+            .cloned()
+            .collect();
+        self.accepted_wrong.retain(|k, _| keep.contains(k) || (k.len() == 1 && HIGHLIGHT.contains(&k[0])));
+        self
+    }
+    fn observe(&mut self, o: &Outcome) {
+        self.pairs += 1;
+        match o {
+            Outcome::Ok(_) => self.completions += 1,
+            Outcome::Panic(_) => self.panics += 1,
+            _ => self.refusals += 1,
+        }
+        *self.kinds.entry(outcome_class(o)).or_insert(0) += 1;
+    }
+    fn to_json(&self) -> Value {
+        json!({
+            "operand_hint_pairs": self.pairs,
+            "honest_host_runs": self.honest_runs,
+            "dishonest_host_runs": self.dishonest_runs,
+            "dishonest_and_different_from_honest": self.nontrivial,
+            "completions": self.completions,
+            "wrong_completions": self.wrong,
+            "refusals": self.refusals,
+            "panics": self.panics,
+            "runs_in_which_the_hint_injector_was_not_called_exactly_once": self.injector_not_called_once,
+            "honest_injector_hint_differs_from_reference": self.honest_hint_differs_from_reference,
+            "outcome_classes": self.kinds,
+            "accepted_wrong_hints_for_some_operands": self.accepted_wrong.iter().map(|(k, v)| {
+                let single: Vec<u64> = v.iter().filter(|h| h.len() == 1).map(|h| h[0]).collect();
+                let text = if single.len() == v.len() { ranges(&single) } else { format!("{v:?}") };
+                json!({"operands_top_first": k, "accepted": text})
+            }).collect::<Vec<_>>(),
+        })
+    }
+}
+
+fn hint_case_json(hi: HI, ops: &[u64], hint: &Option<Vec<u64>>) -> Value {
+    json!({"family": "hint", "instr": hi.name(), "operands_top_first": ops, "hint_pop_order": hint})
+}
+
+/// runs one (instruction, operands, hint) case on the real VM and applies the oracle
+fn check_hint_case(ctx: &Ctx, progs: &Progs, hi: HI, ops: &[u64], hint: &Option<Vec<u64>>, st: &mut Stats, verbose: bool) {
+    let sent = sentinels(16 - hi.arity());
+    let mut stack = ops.to_vec();
+    stack.extend(&sent);
+    let program = &progs.hint[&hi];
+    let (out, log) = match hint {
+        None => (exec(program, &stack, host(&[])), None),
+        Some(h) => {
+            let mut dh = DishonestHost::new(AdviceInputs::default(), Script { hint: Some(h.clone()), ..Default::default() });
+            let o = exec(program, &stack, &mut dh);
+            (o, Some(dh.log))
+        }
+    };
+    st.observe(&out);
+    let valid = hi.valid(ops);
+    let honest_hint = hi.honest_hint(ops);
+    let dishonest = hint.is_some();
+    if dishonest {
+        st.dishonest_runs += 1;
+        let log = log.as_ref().unwrap();
+        if log.hint_injections != 1 {
+            st.injector_not_called_once += 1;
+        }
+        if valid && log.honest_hint != honest_hint {
+            // informational: the honest run of the same operand decides whether this matters
+            st.honest_hint_differs_from_reference += 1;
+        }
+        if hint != &honest_hint {
+            st.nontrivial += 1;
+        }
+    } else {
+        st.honest_runs += 1;
+    }
+    if verbose {
+        println!("instruction {} operands(top first)={ops:?} host={}", hi.name(), if dishonest { "dishonest" } else { "honest DefaultHost" });
+        if let Some(l) = &log {
+            println!("  honest injector answered {:?} (error: {:?}); scripted hint (pop order) {:?}", l.honest_hint, l.honest_hint_err, hint);
+        }
+        println!("  observed: {}", out.brief());
+        println!("  expected: {} then sentinels {:?} untouched; with a wrong hint the run may also fail", hi.expected_text(ops), sent);
+    }
+    let case = hint_case_json(hi, ops, hint);
+    let host_name = if dishonest { "dishonest" } else { "honest" };
+    let descr = match &out {
+        Outcome::Ok(s) => {
+            let rl = hi.result_len().min(s.len());
+            let rest = if norm(&s[rl..]) == sent { "sentinels untouched" } else { "REST OF STACK DISTURBED" };
+            format!("{} ops={ops:?} hint(pop order)={hint:?} -> completes with {:?} ({rest})", hi.name(), &s[..rl])
+        }
+        o => format!("{} ops={ops:?} hint(pop order)={hint:?} -> {}", hi.name(), o.brief()),
+    };
+    match &out {
+        Outcome::Ok(s) => {
+            let rl = hi.result_len();
+            // expected: result, then the sentinels, then nothing but zeros
+            let mut sn = norm(s);
+            if sn.len() < rl {
+                sn.resize(rl, 0);
+            }
+            let wrong = !valid || !hi.result_ok(ops, &sn[..rl]) || sn[rl..] != sent[..];
+            if let (true, Some(h)) = (wrong, hint) {
+                st.accepted_wrong.entry(ops.to_vec()).or_default().push(h.clone());
+            }
+            if !valid {
+                st.wrong += 1;
+                ctx.fail(json!({"kind": "completed_on_invalid_operand", "instr": hi.name(), "host": host_name}), descr, case);
+            } else if !hi.result_ok(ops, &sn[..rl]) {
+                st.wrong += 1;
+                let kind = if dishonest { "wrong_result_accepted" } else { "honest_wrong_result" };
+                ctx.fail(
+                    json!({"kind": kind, "instr": hi.name(), "part": "result"}),
+                    format!("{descr}; expected {}", hi.expected_text(ops)),
+                    case,
+                );
+            } else if sn[rl..] != sent[..] {
+                st.wrong += 1;
+                let kind = if dishonest { "wrong_result_accepted" } else { "honest_wrong_result" };
+                ctx.fail(json!({"kind": kind, "instr": hi.name(), "part": "rest_of_stack"}), descr, case);
+            }
+        }
+        _ => {
+            if valid && (!dishonest || hint == &honest_hint) {
+                ctx.fail(
+                    json!({"kind": "honest_refused", "instr": hi.name(), "host": host_name, "outcome": outcome_class(&out)}),
+                    descr,
+                    case,
+                );
+            }
+        }
+    }
+}
+
+fn u32_operands(tier: Tier) -> Vec<u64> {
+    let mut s: BTreeSet<u64> = BTreeSet::new();
+    let m = 0xffff_ffffu64;
+    s.extend([0, 1, m]);
+    for k in 0..32u32 {
+        let p = 1u64 << k;
+        s.insert(p);
+        s.insert((p + 1) & m);
+        s.insert(p - 1); // k trailing ones
+        s.insert((m + 1 - p) & m); // 32-k leading ones
+        s.insert(((m + 1 - p) | 1) & m); // leading run and a trailing one
+        s.insert((p - 1) | 0x8000_0000); // trailing run and a leading one
+        s.insert(m ^ p); // a single zero
+        s.insert((m + 1 - p).wrapping_sub(1) & m); // leading run, one zero, then ones
+    }
+    if tier == Tier::Thorough {
+        for j in 0..32u32 {
+            for k in 0..j {
+                let v = (1u64 << j) | (1u64 << k);
+                s.insert(v);
+                s.insert(m ^ v);
+            }
+        }
+    }
+    s.into_iter().collect()
+}
+
+fn ilog2_operands(tier: Tier) -> Vec<u64> {
+    let mut s: BTreeSet<u64> = BTreeSet::new();
+    s.extend([0, 1, 2, 3, P - 1, P - 2, P - 3, P >> 1, (P >> 1) + 1]);
+    for k in 0..64u32 {
+        let p = 1u64 << k;
+        s.insert(p);
+        s.insert(p.wrapping_add(1));
+        s.insert(p - 1);
+        s.insert(p | 5);
+        s.insert(p | (1 << 31));
+        s.insert(p | (1u64 << 32));
+        s.insert(p | 0xffff_ffff);
+        if k >= 32 {
+            s.insert(p | (p - 1) & 0xffff_ffff_0000_0000); // only high-half bits below the top bit
+        }
+    }
+    // bits in both halves / values near p
+    s.extend([(1u64 << 40) + 5, (1u64 << 63) + (1 << 31), 0xffff_fffe_ffff_ffff, 0xffff_ffff_0000_0000, 0x8000_0000_8000_0000, 0x0000_0001_0000_0001]);
+    if tier == Tier::Thorough {
+        for j in 0..64u32 {
+            for k in 0..j {
+                s.insert((1u64 << j) | (1u64 << k));
+            }
+        }
+    }
+    s.into_iter().filter(|&v| v < P).collect()
+}
+
+fn counting_hints(tier: Tier) -> Vec<u64> {
+    let hi = tier.pick(70u64, 130u64);
+    let mut v: Vec<u64> = (0..=hi).collect();
+    v.extend([(1 << 32) - 1, 1 << 32, 1 << 63, P - 1]);
+    v
+}
+
+fn ext2_alphabet(tier: Tier) -> Vec<u64> {
+    let mut v = vec![0, 1, 2, P - 1, 1 << 32, 1 << 63, 0x1234_5678_9abc_def0];
+    if tier == Tier::Thorough {
+        v.extend([3, (1 << 32) - 1, P - 2]);
+    }
+    v
+}
+
+/// all scripted hint tuples (pop order) explored for one operand tuple
+fn hints_for(tier: Tier, hi: HI, ops: &[u64]) -> Vec<Vec<u64>> {
+    let mut set: BTreeSet<Vec<u64>> = BTreeSet::new();
+    let mut out = vec![];
+    let mut add = |h: Vec<u64>, out: &mut Vec<Vec<u64>>| {
+        if set.insert(h.clone()) {
+            out.push(h);
+        }
+    };
+    match hi {
+        HI::Clz | HI::Ctz | HI::Clo | HI::Cto | HI::Ilog2 => {
+            for h in counting_hints(tier) {
+                add(vec![h], &mut out);
+            }
+        }
+        HI::Ext2Inv | HI::Ext2Div => {
+            let mut alpha: Vec<u64> = vec![0, 1, P - 1];
+            match hi.honest_hint(ops) {
+                Some(h) => {
+                    for x in h {
+                        alpha.extend([x, fadd(x, 1), fsub(x, 1)]);
+                    }
+                }
+                None => alpha.extend([2, 1 << 32]),
+            }
+            if tier == Tier::Thorough {
+                alpha.extend([2, 1 << 32]);
+            }
+            let alpha: Vec<u64> = alpha.into_iter().collect::<BTreeSet<_>>().into_iter().collect();
+            for t in tuples(&alpha, 2) {
+                add(t, &mut out);
+            }
+        }
+        HI::U64Div | HI::U64Mod | HI::U64DivMod => {
+            let m = 0xffff_ffffu64;
+            match hi.honest_hint(ops) {
+                Some(h) => {
+                    // one (thorough: up to two) dishonest limb(s), the others honest
+                    let alts = |x: u64| [fadd(x, 1), fsub(x, 1), 0, 1, m, m + 1];
+                    for dev in deviations(4, 6, tier.pick(1, 2)) {
+                        let mut t = h.clone();
+                        for (pos, alt) in dev {
+                            t[pos] = alts(h[pos])[alt];
+                        }
+                        add(t, &mut out);
+                    }
+                    // all four limbs dishonest over a reduced alphabet
+                    let per_limb: Vec<Vec<u64>> = h
+                        .iter()
+                        .map(|&x| match tier {
+                            Tier::Quick => vec![0, 1, fadd(x, 1)],
+                            Tier::Thorough => vec![0, 1, m, m + 1, fadd(x, 1), fsub(x, 1)],
+                        })
+                        .collect();
+                    let k = per_limb[0].len();
+                    for idx in tuples(&(0..k).collect::<Vec<_>>(), 4) {
+                        add((0..4).map(|p| per_limb[p][idx[p]]).collect(), &mut out);
+                    }
+                }
+                None => {
+                    // divisor 0: there is no honest answer; the host answers anyway
+                    for t in tuples(&[0, 1, m], 4) {
+                        add(t, &mut out);
+                    }
+                    add(vec![0, 0, ops[3], ops[2]], &mut out); // q = 0, r = a
+                    add(vec![ops[3], ops[2], 0, 0], &mut out); // q = a, r = 0
+                }
+            }
+        }
+    }
+    out
+}
+
+/// (instruction, operand tuple) groups; each group is then crossed with `hints_for`
+fn hint_groups(tier: Tier) -> Vec<(HI, Vec<u64>)> {
+    let mut g = vec![];
+    for hi in [HI::Clz, HI::Ctz, HI::Clo, HI::Cto] {
+        for n in u32_operands(tier) {
+            g.push((hi, vec![n]));
+        }
+    }
+    for n in ilog2_operands(tier) {
+        g.push((HI::Ilog2, vec![n]));
+    }
+    let e = ext2_alphabet(tier);
+    for a in tuples(&e, 2) {
+        g.push((HI::Ext2Inv, a)); // [a1, a0]
+    }
+    let numerators: Vec<(u64, u64)> = tier.pick(
+        vec![(1, 0), (2, P - 1), (1 << 32, 7)],
+        vec![(1, 0), (2, P - 1), (1 << 32, 7), (0, 0), (P - 1, P - 1)],
+    );
+    for b in tuples(&e, 2) {
+        for &(a1, a0) in &numerators {
+            g.push((HI::Ext2Div, vec![b[0], b[1], a1, a0])); // [b1, b0, a1, a0]
+        }
+    }
+    let limbs = [0u64, 1, 2, 1 << 31, 0xffff_ffff];
+    for hi in [HI::U64Div, HI::U64Mod, HI::U64DivMod] {
+        for t in tuples(&limbs, 4) {
+            g.push((hi, t)); // [b_hi, b_lo, a_hi, a_lo]
+        }
+    }
+    g
+}
+
+// ================================================================================================
+// family "mtree"
+// ================================================================================================
+
+fn merge(l: &W, r: &W) -> W {
+    wd(&Rpo256::merge(&[dg(l), dg(r)]))
+}
+
+/// reference Merkle tree: levels[0] = [root], levels[depth] = leaves
+#[derive(Clone, Debug)]
+struct Tree {
+    depth: usize,
+    levels: Vec<Vec<W>>,
+}
+
+impl Tree {
+    fn new(leaves: &[W]) -> Tree {
+        assert!(leaves.len().is_power_of_two() && leaves.len() >= 2);
+        let depth = leaves.len().trailing_zeros() as usize;
+        let mut levels = vec![leaves.to_vec()];
+        while levels.last().unwrap().len() > 1 {
+            let cur = levels.last().unwrap();
+            let next: Vec<W> = cur.chunks(2).map(|c| merge(&c[0], &c[1])).collect();
+            levels.push(next);
+        }
+        levels.reverse();
+        Tree { depth, levels }
+    }
+    fn root(&self) -> W {
+        self.levels[0][0]
+    }
+    fn node(&self, d: usize, i: u64) -> W {
+        self.levels[d][i as usize]
+    }
+    /// siblings from depth d up to depth 1
+    fn path(&self, d: usize, i: u64) -> Vec<W> {
+        let mut idx = i as usize;
+        let mut p = vec![];
+        for l in (1..=d).rev() {
+            p.push(self.levels[l][idx ^ 1]);
+            idx >>= 1;
+        }
+        p
+    }
+    /// root of the tree in which node (d,i) was replaced by `v`
+    fn root_after_set(&self, d: usize, i: u64, v: &W) -> W {
+        let mut idx = i as usize;
+        let mut cur = *v;
+        for l in (1..=d).rev() {
+            let sib = self.levels[l][idx ^ 1];
+            cur = if idx & 1 == 0 { merge(&cur, &sib) } else { merge(&sib, &cur) };
+            idx >>= 1;
+        }
+        cur
+    }
+    /// value -> (left, right) for every inner node
+    fn inner(&self) -> BTreeMap<W, (W, W)> {
+        let mut m = BTreeMap::new();
+        for l in 0..self.depth {
+            for (i, v) in self.levels[l].iter().enumerate() {
+                m.insert(*v, (self.levels[l + 1][2 * i], self.levels[l + 1][2 * i + 1]));
+            }
+        }
+        m
+    }
+}
+
+fn store_of(entries: &BTreeMap<W, (W, W)>) -> MerkleStore {
+    entries.iter().map(|(v, (l, r))| InnerNodeInfo { value: dg(v), left: dg(l), right: dg(r) }).collect()
+}
+
+#[derive(Clone, Copy, Debug, PartialEq, Eq, PartialOrd, Ord)]
+enum MI {
+    Get,
+    Set,
+    Verify,
+    SetThenGet,
+}
+
+impl MI {
+    fn name(self) -> &'static str {
+        match self {
+            MI::Get => "mtree_get",
+            MI::Set => "mtree_set",
+            MI::Verify => "mtree_verify",
+            MI::SetThenGet => "mtree_set;mtree_get",
+        }
+    }
+    fn from_name(s: &str) -> MI {
+        *[MI::Get, MI::Set, MI::Verify, MI::SetThenGet].iter().find(|m| m.name() == s).expect("unknown mtree instruction")
+    }
+}
+
+#[derive(Clone, Debug, PartialEq)]
+enum StoreEdit {
+    Left(W),
+    Right(W),
+    Swap,
+    Remove,
+}
+
+#[derive(Clone, Debug, PartialEq)]
+enum MDev {
+    Honest,
+    /// the honest advice provider on a store whose entry for the on-path node at `level` was edited
+    Store { level: usize, edit: StoreEdit },
+    /// honest store, answers replaced by the dishonest host; `shape` = the path length differs from d
+    Answer { node: Option<W>, path_edits: Vec<(usize, W)>, path_whole: Option<Vec<W>>, shape: bool },
+}
+
+#[derive(Clone, Debug)]
+struct MCase {
+    instr: MI,
+    leaves: Vec<W>,
+    /// a second tree kept in the same store (mtree_verify with the other root)
+    leaves2: Option<Vec<W>>,
+    use_root2: bool,
+    d: usize,
+    i: u64,
+    new_value: Option<W>,
+    claimed: Option<W>,
+    dev: MDev,
+}
+
+fn w_json(w: &W) -> Value {
+    json!(w)
+}
+fn w_from(v: &Value) -> W {
+    let a = v.as_array().expect("word");
+    [a[0].as_u64().unwrap(), a[1].as_u64().unwrap(), a[2].as_u64().unwrap(), a[3].as_u64().unwrap()]
+}
+fn ws_json(ws: &[W]) -> Value {
+    Value::Array(ws.iter().map(w_json).collect())
+}
+fn ws_from(v: &Value) -> Vec<W> {
+    v.as_array().expect("words").iter().map(w_from).collect()
+}
+
+impl MCase {
+    fn to_json(&self) -> Value {
+        let dev = match &self.dev {
+            MDev::Honest => json!({"kind": "honest"}),
+            MDev::Store { level, edit } => {
+                let (e, w) = match edit {
+                    StoreEdit::Left(w) => ("left", Some(*w)),
+                    StoreEdit::Right(w) => ("right", Some(*w)),
+                    StoreEdit::Swap => ("swap", None),
+                    StoreEdit::Remove => ("remove", None),
+                };
+                json!({"kind": "store", "level": level, "edit": e, "word": w})
+            }
+            MDev::Answer { node, path_edits, path_whole, shape } => json!({
+                "kind": "answer",
+                "node": node,
+                "path_edits": path_edits.iter().map(|(j, w)| json!([j, w])).collect::<Vec<_>>(),
+                "path_whole": path_whole.as_ref().map(|p| ws_json(p)),
+                "shape": shape,
+            }),
+        };
+        json!({
+            "family": "mtree",
+            "instr": self.instr.name(),
+            "leaves": ws_json(&self.leaves),
+            "leaves2": self.leaves2.as_ref().map(|l| ws_json(l)),
+            "use_root2": self.use_root2,
+            "d": self.d,
+            "i": self.i,
+            "new_value": self.new_value,
+            "claimed": self.claimed,
+            "deviation": dev,
+        })
+    }
+    fn from_json(v: &Value) -> MCase {
+        let dv = &v["deviation"];
+        let dev = match dv["kind"].as_str().unwrap() {
+            "honest" => MDev::Honest,
+            "store" => {
+                let edit = match dv["edit"].as_str().unwrap() {
+                    "left" => StoreEdit::Left(w_from(&dv["word"])),
+                    "right" => StoreEdit::Right(w_from(&dv["word"])),
+                    "swap" => StoreEdit::Swap,
+                    _ => StoreEdit::Remove,
+                };
+                MDev::Store { level: dv["level"].as_u64().unwrap() as usize, edit }
+            }
+            _ => MDev::Answer {
+                node: if dv["node"].is_null() { None } else { Some(w_from(&dv["node"])) },
+                path_edits: dv["path_edits"]
+                    .as_array()
+                    .unwrap()
+                    .iter()
+                    .map(|e| (e[0].as_u64().unwrap() as usize, w_from(&e[1])))
+                    .collect(),
+                path_whole: if dv["path_whole"].is_null() { None } else { Some(ws_from(&dv["path_whole"])) },
+                shape: dv["shape"].as_bool().unwrap_or(false),
+            },
+        };
+        let opt = |x: &Value| if x.is_null() { None } else { Some(w_from(x)) };
+        MCase {
+            instr: MI::from_name(v["instr"].as_str().unwrap()),
+            leaves: ws_from(&v["leaves"]),
+            leaves2: if v["leaves2"].is_null() { None } else { Some(ws_from(&v["leaves2"])) },
+            use_root2: v["use_root2"].as_bool().unwrap_or(false),
+            d: v["d"].as_u64().unwrap() as usize,
+            i: v["i"].as_u64().unwrap(),
+            new_value: opt(&v["new_value"]),
+            claimed: opt(&v["claimed"]),
+            dev,
+        }
+    }
+}
+
+fn tf(w: &W) -> [u64; 4] {
+    [w[3], w[2], w[1], w[0]]
+}
+
+#[derive(Debug)]
+struct MObs {
+    out: Outcome,
+    /// "correct" | "wrong" | "refused"
+    verdict: &'static str,
+}
+
+/// runs one Merkle case on the real VM and applies the oracle (shape cases are only classified)
+fn check_mtree_case(ctx: &Ctx, progs: &Progs, c: &MCase, st: &mut Stats, verbose: bool) -> MObs {
+    let t1 = Tree::new(&c.leaves);
+    let t2 = c.leaves2.as_ref().map(|l| Tree::new(l));
+    let t = if c.use_root2 { t2.as_ref().expect("use_root2 needs leaves2") } else { &t1 };
+    let root = t.root();
+    let truth = t.node(c.d, c.i);
+
+    // the host's store
+    let mut entries = t1.inner();
+    if let Some(t2) = &t2 {
+        entries.extend(t2.inner());
+    }
+    if let MDev::Store { level, edit } = &c.dev {
+        let key = t.node(*level, c.i >> (c.d - *level));
+        let (l, r) = entries[&key];
+        match edit {
+            StoreEdit::Left(w) => {
+                entries.insert(key, (*w, r));
+            }
+            StoreEdit::Right(w) => {
+                entries.insert(key, (l, *w));
+            }
+            StoreEdit::Swap => {
+                entries.insert(key, (r, l));
+            }
+            StoreEdit::Remove => {
+                entries.remove(&key);
+            }
+        }
+    }
+    let advice = AdviceInputs::default().with_merkle_store(store_of(&entries));
+
+    // operand stack and expectation
+    let (mut stack, expected, valid): (Vec<u64>, Vec<u64>, bool) = match c.instr {
+        MI::Get => {
+            let mut s = vec![c.d as u64, c.i];
+            s.extend(tf(&root));
+            let sent = sentinels(8);
+            let mut e = tf(&truth).to_vec();
+            e.extend(tf(&root));
+            e.extend(&sent);
+            s.extend(&sent);
+            (s, e, true)
+        }
+        MI::Set => {
+            let nv = c.new_value.expect("mtree_set needs new_value");
+            let mut s = vec![c.d as u64, c.i];
+            s.extend(tf(&root));
+            s.extend(tf(&nv));
+            let sent = sentinels(6);
+            let mut e = tf(&truth).to_vec();
+            e.extend(tf(&t.root_after_set(c.d, c.i, &nv)));
+            e.extend(&sent);
+            e.extend([0, 0]);
+            s.extend(&sent);
+            (s, e, true)
+        }
+        MI::Verify => {
+            let cl = c.claimed.expect("mtree_verify needs claimed");
+            let mut s = tf(&cl).to_vec();
+            s.extend([c.d as u64, c.i]);
+            s.extend(tf(&root));
+            s.extend(sentinels(6));
+            (s.clone(), s, cl == truth)
+        }
+        MI::SetThenGet => {
+            let nv = c.new_value.expect("mtree_set needs new_value");
+            let mut s = vec![c.d as u64, c.i];
+            s.extend(tf(&root));
+            s.extend(tf(&nv));
+            s.extend([c.d as u64, c.i]);
+            let sent = sentinels(4);
+            s.extend(&sent);
+            let mut e = tf(&nv).to_vec();
+            e.extend(tf(&t.root_after_set(c.d, c.i, &nv)));
+            e.extend(&sent);
+            e.extend([0, 0, 0, 0]);
+            (s, e, true)
+        }
+    };
+    stack.truncate(16);
+    let program = &progs.mtree[c.instr.name()];
+    let (out, log) = match &c.dev {
+        MDev::Answer { node, path_edits, path_whole, .. } => {
+            let script = Script { hint: None, node: *node, path_edits: path_edits.clone(), path_whole: path_whole.clone() };
+            let mut dh = DishonestHost::new(advice, script);
+            let o = exec(program, &stack, &mut dh);
+            (o, Some(dh.log))
+        }
+        _ => (exec(program, &stack, host_from(advice)), None),
+    };
+    st.observe(&out);
+    let shape = matches!(&c.dev, MDev::Answer { shape: true, .. });
+    let dishonest = c.dev != MDev::Honest;
+    if dishonest {
+        st.dishonest_runs += 1;
+        st.nontrivial += 1; // generators only emit deviations that differ from the honest content
+    } else {
+        st.honest_runs += 1;
+    }
+    if verbose {
+        println!("instruction {} depth-{} tree, node (d={}, i={}), root operand = tree {}", c.instr.name(), t1.depth, c.d, c.i, if c.use_root2 { 2 } else { 1 });
+        println!("  deviation: {}", c.to_json()["deviation"]);
+        if let Some(l) = &log {
+            println!("  honest node {:?}; honest path {:?}; answered path {:?}", l.honest_node, l.honest_path, l.answered_path);
+        }
+        println!("  operand stack (top first): {stack:?}");
+        println!("  observed: {}", out.brief());
+        if valid {
+            println!("  expected: {expected:?} (true node {truth:?}); with dishonest content the run may also fail");
+        } else {
+            println!("  expected: must not complete (claimed node is not the node of that root at (d,i); true node {truth:?})");
+        }
+    }
+    let descr = format!(
+        "{} D={} d={} i={} dev={} -> {}",
+        c.instr.name(),
+        t1.depth,
+        c.d,
+        c.i,
+        c.to_json()["deviation"],
+        out.brief()
+    );
+    let verdict = match &out {
+        Outcome::Ok(s) => {
+            if valid && norm(s) == norm(&expected) {
+                "correct"
+            } else {
+                "wrong"
+            }
+        }
+        _ => "refused",
+    };
+    if shape {
+        return MObs { out, verdict };
+    }
+    match verdict {
+        "wrong" => {
+            st.wrong += 1;
+            let kind = match (dishonest, valid) {
+                (true, true) => "wrong_result_accepted",
+                (true, false) => "false_claim_accepted",
+                (false, true) => "honest_wrong_result",
+                (false, false) => "completed_on_invalid_operand",
+            };
+            let devkind = match &c.dev {
+                MDev::Honest => "honest",
+                MDev::Store { .. } => "lying_store",
+                MDev::Answer { .. } => "answer",
+            };
+            ctx.fail(json!({"kind": kind, "instr": c.instr.name(), "deviation": devkind}), descr, c.to_json());
+        }
+        "refused" if valid && !dishonest => {
+            ctx.fail(json!({"kind": "honest_refused", "instr": c.instr.name(), "outcome": outcome_class(&out)}), descr, c.to_json());
+        }
+        _ => {}
+    }
+    MObs { out, verdict }
+}
+
+/// the opaque payload words (derived from VERIF_SEED): two leaf words and one foreign word
+fn payload_words(seed: u64) -> (W, W, W) {
+    let mut g = SplitMix(seed ^ 0xC09);
+    let mut w = || [g.next() % P, g.next() % P, g.next() % P, g.next() % P];
+    let (a, b, x) = (w(), w(), w());
+    assert!(a != b && a != x && b != x);
+    (a, b, x)
+}
+
+/// leaf patterns (bit k set = leaf k is B) explored per depth
+fn leaf_patterns(tier: Tier, depth: usize) -> Vec<u32> {
+    let n = 1usize << depth;
+    let all: Vec<u32> = (0..(1u32 << n)).collect();
+    if depth < 3 || tier == Tier::Thorough {
+        return all;
+    }
+    // depth 3, quick: all-equal, alternating, half/half, pairs, every one-hot pattern, two one-cold patterns
+    let mut s: BTreeSet<u32> = BTreeSet::new();
+    s.extend([0x00, 0x55, 0x0f, 0x33, 0xfe, 0x7f]);
+    for k in 0..8 {
+        s.insert(1 << k);
+    }
+    s.into_iter().collect()
+}
+
+fn leaves_of(pattern: u32, depth: usize, a: &W, b: &W) -> Vec<W> {
+    (0..(1usize << depth)).map(|k| if (pattern >> k) & 1 == 1 { *b } else { *a }).collect()
+}
+
+fn dedup_words(v: Vec<W>, not: &W) -> Vec<W> {
+    let mut seen: BTreeSet<W> = BTreeSet::new();
+    v.into_iter().filter(|w| w != not && seen.insert(*w)).collect()
+}
+
+/// every case of the Merkle family for one tree
+fn mtree_cases_for_tree(tier: Tier, leaves: &[W], a: &W, b: &W, x: &W) -> Vec<MCase> {
+    let t = Tree::new(leaves);
+    let z: W = [0; 4];
+    let mut leaves2 = leaves.to_vec();
+    leaves2[0] = if leaves[0] == *a { *b } else { *a };
+    let t2 = Tree::new(&leaves2);
+    let mut out = vec![];
+    for d in 1..=t.depth {
+        for i in 0..(1u64 << d) {
+            let truth = t.node(d, i);
+            let sibling = t.node(d, i ^ 1);
+            let parent = t.node(d - 1, i >> 1);
+            let hpath = t.path(d, i);
+            let base = |instr: MI, new_value: Option<W>, claimed: Option<W>, dev: MDev| MCase {
+                instr,
+                leaves: leaves.to_vec(),
+                leaves2: None,
+                use_root2: false,
+                d,
+                i,
+                new_value,
+                claimed,
+                dev,
+            };
+            // operand variants
+            let other = if truth == *a { *b } else { *a };
+            let new_values = [other, *x];
+            let claims = {
+                let mut v = vec![truth];
+                v.extend(dedup_words(vec![*a, *b, *x, sibling, parent], &truth));
+                v
+            };
+            let mut variants: Vec<(MI, Option<W>, Option<W>)> = vec![(MI::Get, None, None)];
+            for nv in new_values {
+                variants.push((MI::Set, Some(nv), None));
+            }
+            for cl in &claims {
+                variants.push((MI::Verify, None, Some(*cl)));
+            }
+
+            // deviations of the host's content
+            let mut devs: Vec<MDev> = vec![MDev::Honest];
+            for level in 0..d {
+                let key_idx = i >> (d - level);
+                let (l, r) = (t.node(level + 1, 2 * key_idx), t.node(level + 1, 2 * key_idx + 1));
+                for w in dedup_words(vec![*a, *b, *x, z, r, t.root()], &l) {
+                    devs.push(MDev::Store { level, edit: StoreEdit::Left(w) });
+                }
+                for w in dedup_words(vec![*a, *b, *x, z, l, t.root()], &r) {
+                    devs.push(MDev::Store { level, edit: StoreEdit::Right(w) });
+                }
+                if l != r {
+                    devs.push(MDev::Store { level, edit: StoreEdit::Swap });
+                }
+                devs.push(MDev::Store { level, edit: StoreEdit::Remove });
+            }
+            let node_alts = dedup_words(vec![*a, *b, *x, z, sibling, parent], &truth);
+            for w in &node_alts {
+                devs.push(MDev::Answer { node: Some(*w), path_edits: vec![], path_whole: None, shape: false });
+            }
+            for j in 0..d {
+                for w in dedup_words(vec![*a, *b, *x, z, truth, t.root()], &hpath[j]) {
+                    devs.push(MDev::Answer { node: None, path_edits: vec![(j, w)], path_whole: None, shape: false });
+                }
+            }
+            // everything dishonest: node and one path element
+            for w in dedup_words(vec![sibling, other, *x], &truth) {
+                for j in 0..d {
+                    for pw in dedup_words(vec![truth, *x], &hpath[j]) {
+                        devs.push(MDev::Answer { node: Some(w), path_edits: vec![(j, pw)], path_whole: None, shape: false });
+                    }
+                }
+            }
+            // the (equally long) path of the other tree in the store
+            let p2 = t2.path(d, i);
+            if p2 != hpath {
+                devs.push(MDev::Answer { node: None, path_edits: vec![], path_whole: Some(p2.clone()), shape: false });
+            }
+
+            for (instr, nv, cl) in &variants {
+                for dev in &devs {
+                    // mtree_verify gets no node from the host: node-only deviations are no deviation there
+                    if *instr == MI::Verify {
+                        if let MDev::Answer { node: Some(_), .. } = dev {
+                            continue;
+                        }
+                    }
+                    out.push(base(*instr, *nv, *cl, dev.clone()));
+                }
+            }
+            // honest store update is usable afterwards
+            for nv in new_values {
+                out.push(base(MI::SetThenGet, Some(nv), None, MDev::Honest));
+            }
+            // the second tree's root as operand (both trees in the store): claims from either tree
+            for cl in dedup_words(vec![truth, t2.node(d, i), *x], &z) {
+                let mut c = base(MI::Verify, None, Some(cl), MDev::Honest);
+                c.leaves2 = Some(leaves2.clone());
+                c.use_root2 = true;
+                out.push(c.clone());
+                // ... also with the path of tree 1 handed out for the root of tree 2
+                if p2 != hpath {
+                    c.dev = MDev::Answer { node: None, path_edits: vec![], path_whole: Some(hpath.clone()), shape: false };
+                    out.push(c);
+                }
+            }
+
+            // host-contract *shape* violations (path of the wrong length): information only, thorough tier
+            if tier == Tier::Thorough {
+                let mut shapes: Vec<(Option<W>, Vec<W>)> = vec![];
+                if d >= 2 {
+                    shapes.push((None, hpath[1..].to_vec())); // first element dropped
+                    shapes.push((None, hpath[..d - 1].to_vec())); // last element dropped
+                    // a consistent answer for the parent: node and path of (d-1, i>>1) resp. (d-1, i)
+                    shapes.push((Some(parent), t.path(d - 1, i >> 1)));
+                    if i < (1 << (d - 1)) {
+                        shapes.push((Some(t.node(d - 1, i)), t.path(d - 1, i)));
+                    }
+                }
+                let mut longer = hpath.clone();
+                longer.push(*x);
+                shapes.push((None, longer));
+                if d < t.depth {
+                    // a consistent answer one level further down
+                    let mut p = vec![t.node(d + 1, 2 * i + 1)];
+                    p.extend(hpath.clone());
+                    shapes.push((Some(t.node(d + 1, 2 * i)), p));
+                }
+                shapes.push((None, vec![]));
+                for (node, p) in shapes {
+                    for (instr, nv, cl) in [
+                        (MI::Get, None, None),
+                        (MI::Set, Some(other), None),
+                        (MI::Verify, None, Some(truth)),
+                        (MI::Verify, None, node),
+                    ] {
+                        if instr == MI::Verify && cl.is_none() {
+                            continue;
+                        }
+                        let node = if instr == MI::Verify { None } else { node };
+                        out.push(base(instr, nv, cl, MDev::Answer { node, path_edits: vec![], path_whole: Some(p.clone()), shape: true }));
+                    }
+                }
+            }
+        }
+    }
+    out
+}
+
+// ================================================================================================
+// family "advice"
+// ================================================================================================
+
+#[derive(Clone, Debug)]
+struct ACase {
+    prog: String,
+    /// number of elements on the advice stack (distinct values, element 0 on top)
+    len: usize,
+}
+
+fn advice_values(len: usize) -> Vec<u64> {
+    (0..len as u64).map(|k| 0xAD00_0000_0000 + 1 + k).collect()
+}
+
+/// what the documentation promises: (number of elements consumed, expected final stack (top first),
+/// expected memory words) for the operand stack `sentinels(16)` (adv_pipe: address at position 12)
+fn advice_expectation(prog: &str, adv: &[u64]) -> (usize, Option<(Vec<u64>, Vec<(u64, W)>)>) {
+    const ADDR: u64 = 40;
+    let (base, extra) = match prog.strip_suffix("+1") {
+        Some(b) => (b, 1),
+        None => (prog, 0),
+    };
+    let mut stack = advice_operand_stack(prog);
+    let mut mem = vec![];
+    let need;
+    if let Some(n) = base.strip_prefix("adv_push.") {
+        let n: usize = n.parse().unwrap();
+        need = n + extra;
+        if adv.len() < need {
+            return (need, None);
+        }
+        // "pops n values and pushes them onto the operand stack": the first popped ends deepest
+        for v in &adv[..n] {
+            stack.insert(0, *v);
+        }
+    } else if base == "adv_loadw" {
+        need = 4 + extra;
+        if adv.len() < need {
+            return (need, None);
+        }
+        // overwrites the top word; first element of the advice stack is placed deepest
+        for k in 0..4 {
+            stack[3 - k] = adv[k];
+        }
+    } else {
+        need = 8 + extra;
+        if adv.len() < need {
+            return (need, None);
+        }
+        // [C, B, A, a, ...] -> [E, D, A, a+2, ...], D = first word popped, E = second; D -> mem[a], E -> mem[a+1]
+        for k in 0..8 {
+            stack[7 - k] = adv[k];
+        }
+        stack[12] = ADDR + 2;
+        mem.push((ADDR, [adv[0], adv[1], adv[2], adv[3]]));
+        mem.push((ADDR + 1, [adv[4], adv[5], adv[6], adv[7]]));
+    }
+    if extra == 1 {
+        stack.insert(0, adv[need - 1]);
+    }
+    (need, Some((stack, mem)))
+}
+
+fn advice_operand_stack(prog: &str) -> Vec<u64> {
+    let mut s = sentinels(16);
+    if prog.starts_with("adv_pipe") {
+        s[12] = 40;
+    }
+    s
+}
+
+fn check_advice_case(ctx: &Ctx, progs: &Progs, c: &ACase, st: &mut Stats, verbose: bool) {
+    let adv = advice_values(c.len);
+    let (need, exp) = advice_expectation(&c.prog, &adv);
+    let stack = advice_operand_stack(&c.prog);
+    let program = &progs.advice[&c.prog];
+    // run on a Process so that memory can be inspected
+    let r = guard::catch(|| {
+        let mut p = Process::new(program.kernel().clone(), stack_inputs(&stack), host(&adv), ExecutionOptions::default());
+        let r = p.execute(program);
+        let mem: Vec<(u64, W)> = p
+            .get_mem_state(ContextId::root())
+            .into_iter()
+            .map(|(a, w)| (a, [w[0].as_int(), w[1].as_int(), w[2].as_int(), w[3].as_int()]))
+            .collect();
+        (r.map(|o| o.stack().to_vec()).map_err(|e| format!("{e:?}")), mem)
+    });
+    let (out, mem) = match r {
+        Err(p) => (Outcome::Panic(p), vec![]),
+        Ok((Ok(s), m)) => (Outcome::Ok(s), m),
+        Ok((Err(e), m)) => (Outcome::Err(e), m),
+    };
+    st.observe(&out);
+    st.honest_runs += 1;
+    if verbose {
+        println!("program {} advice stack (top first) {adv:?} operand stack {stack:?}", c.prog);
+        println!("  observed: {} memory {mem:?}", out.brief());
+        match &exp {
+            Some((s, m)) => println!("  expected: Ok{s:?} memory {m:?}"),
+            None => println!("  expected: failure (needs {need} advice elements, has {})", c.len),
+        }
+    }
+    let case = json!({"family": "advice", "prog": c.prog, "len": c.len});
+    let descr = format!("{} with {} advice elements -> {} mem {mem:?}", c.prog, c.len, out.brief());
+    let instr = c.prog.trim_end_matches("+1").split('.').next().unwrap().to_string();
+    match (&out, &exp) {
+        (Outcome::Ok(s), Some((es, em))) => {
+            if norm(s) != norm(es) {
+                st.wrong += 1;
+                ctx.fail(json!({"kind": "advice_order", "instr": instr, "part": "stack"}), format!("{descr}; expected {es:?}"), case);
+            } else if &mem != em {
+                st.wrong += 1;
+                ctx.fail(json!({"kind": "advice_order", "instr": instr, "part": "memory"}), format!("{descr}; expected {em:?}"), case);
+            }
+        }
+        (Outcome::Ok(_), None) => {
+            st.wrong += 1;
+            ctx.fail(json!({"kind": "advice_underflow_completed", "instr": instr}), descr, case);
+        }
+        (_, Some(_)) => ctx.fail(json!({"kind": "honest_refused", "instr": instr, "outcome": outcome_class(&out)}), descr, case),
+        (_, None) => {}
+    }
+}
+
+fn advice_cases() -> Vec<ACase> {
+    let mut v = vec![];
+    for (prog, _) in advice_srcs() {
+        let need = advice_expectation(&prog, &advice_values(64)).0;
+        let mut lens: BTreeSet<usize> = BTreeSet::new();
+        lens.extend([0, need.saturating_sub(1), need, need + 1, 24]);
+        for len in lens {
+            v.push(ACase { prog: prog.clone(), len });
+        }
+    }
+    v
+}
+
+// ================================================================================================
+// driver
+// ================================================================================================
+
+fn u64s(v: &Value) -> Vec<u64> {
+    v.as_array().expect("array of integers").iter().map(|x| x.as_u64().expect("u64")).collect()
+}
+
+fn self_checks(a: &W, b: &W) {
+    // the reference tree must agree with the library's MerkleTree on honest data
+    for depth in 1..=3usize {
+        let leaves = leaves_of(0b0110_1001, depth, a, b);
+        let t = Tree::new(&leaves);
+        let lib = MerkleTree::new(leaves.iter().map(|w| [Felt::new(w[0]), Felt::new(w[1]), Felt::new(w[2]), Felt::new(w[3])]).collect::<Vec<_>>())
+            .expect("MerkleTree::new");
+        assert_eq!(wd(&lib.root()), t.root(), "harness: reference Merkle tree disagrees with MerkleTree");
+    }
+    assert_eq!(ext2_mul((1, 0), (5, 7)), (5, 7));
+    assert_eq!(ext2_mul((0, 1), (0, 1)), (P - 2, 1)); // x^2 = x - 2
+    assert_eq!(ref_clz(1), 31);
+    assert_eq!(ref_cto(0xffff_ffff), 32);
+    assert_eq!(ref_ilog2(P - 1), 63);
+}
+
+pub fn run(ctx: &Ctx, replay: Option<&Value>) -> i32 {
+    let progs = compile_all();
+    let (a, b, x) = payload_words(ctx.seed);
+
+    if let Some(case) = replay {
+        let mut st = Stats::default();
+        match case["family"].as_str().unwrap_or("") {
+            "hint" => {
+                let hi = HI::from_name(case["instr"].as_str().unwrap());
+                let ops = u64s(&case["operands_top_first"]);
+                let hint = if case["hint_pop_order"].is_null() { None } else { Some(u64s(&case["hint_pop_order"])) };
+                check_hint_case(ctx, &progs, hi, &ops, &hint, &mut st, true);
+            }
+            "mtree" => {
+                let c = MCase::from_json(case);
+                let o = check_mtree_case(ctx, &progs, &c, &mut st, true);
+                println!("  verdict: {}", o.verdict);
+            }
+            "advice" => {
+                let c = ACase { prog: case["prog"].as_str().unwrap().to_string(), len: case["len"].as_u64().unwrap() as usize };
+                check_advice_case(ctx, &progs, &c, &mut st, true);
+            }
+            f => panic!("unknown case family {f:?} in replay file"),
+        }
+        return ctx.finish("fault_enumeration", json!({}), &[]);
+    }
+
+    self_checks(&a, &b);
+    let tier = ctx.tier;
+
+    // ---------------------------------------------------------------------------------------- hint
+    let groups = hint_groups(tier);
+    // determinism of the machinery: the first 50 groups give identical observations twice
+    for (hi, ops) in groups.iter().take(50) {
+        for h in hints_for(tier, *hi, ops).into_iter().take(3) {
+            let run = || {
+                let mut dh = DishonestHost::new(AdviceInputs::default(), Script { hint: Some(h.clone()), ..Default::default() });
+                let mut stack = ops.clone();
+                stack.extend(sentinels(16 - hi.arity()));
+                exec(&progs.hint[hi], &stack, &mut dh)
+            };
+            assert_eq!(run(), run(), "harness: non-deterministic observation");
+        }
+    }
+    let hint_stats: BTreeMap<HI, Stats> = groups
+        .par_iter()
+        .map(|(hi, ops)| {
+            let mut st = Stats::default();
+            check_hint_case(ctx, &progs, *hi, ops, &None, &mut st, false);
+            for h in hints_for(tier, *hi, ops) {
+                check_hint_case(ctx, &progs, *hi, ops, &Some(h), &mut st, false);
+            }
+            (*hi, st)
+        })
+        .fold(BTreeMap::new, |mut m: BTreeMap<HI, Stats>, (hi, st)| {
+            let e = m.remove(&hi).unwrap_or_default();
+            m.insert(hi, e.merge(st));
+            m
+        })
+        .reduce(BTreeMap::new, |mut x, y| {
+            for (k, v) in y {
+                let e = x.remove(&k).unwrap_or_default();
+                x.insert(k, e.merge(v));
+            }
+            x
+        });
+    for (hi, ops) in groups.iter().step_by(groups.len() / 5 + 1) {
+        let hs = hints_for(tier, *hi, ops);
+        ctx.sample(hint_case_json(*hi, ops, &hs.get(hs.len() / 2).cloned()));
+    }
+
+    let t_hint = ctx.elapsed();
+    // --------------------------------------------------------------------------------------- mtree
+    let mut trees: Vec<Vec<W>> = vec![];
+    for depth in 1..=3usize {
+        for pat in leaf_patterns(tier, depth) {
+            trees.push(leaves_of(pat, depth, &a, &b));
+        }
+    }
+    // determinism of the machinery: the first 50 cases of the first tree of every depth, twice
+    for leaves in [&trees[0], &trees[4], &trees[20]] { // first tree of depth 1, 2, 3
+        for c in mtree_cases_for_tree(tier, leaves, &a, &b, &x).iter().take(50) {
+            let scratch_ctx = Ctx::new(&ctx.prop, tier, ctx.seed);
+            let (mut s1, mut s2) = (Stats::default(), Stats::default());
+            let o1 = check_mtree_case(&scratch_ctx, &progs, c, &mut s1, false);
+            let o2 = check_mtree_case(&scratch_ctx, &progs, c, &mut s2, false);
+            assert_eq!(o1.out, o2.out, "harness: non-deterministic observation");
+        }
+    }
+    let per_tree: Vec<(BTreeMap<MI, Stats>, BTreeMap<String, u64>, u64, Option<Value>)> = trees
+        .par_iter()
+        .map(|leaves| {
+            let cases = mtree_cases_for_tree(tier, leaves, &a, &b, &x);
+            let mut m: BTreeMap<MI, Stats> = BTreeMap::new();
+            let mut shapes: BTreeMap<String, u64> = BTreeMap::new();
+            let mut sample = None;
+            for (k, c) in cases.iter().enumerate() {
+                let shape = matches!(&c.dev, MDev::Answer { shape: true, .. });
+                let mut scratch = Stats::default();
+                let st = if shape { &mut scratch } else { m.entry(c.instr).or_default() };
+                let o = check_mtree_case(ctx, &progs, c, st, false);
+                if shape {
+                    if let MDev::Answer { node, path_whole: Some(p), .. } = &c.dev {
+                        let class = match &o.out {
+                            Outcome::Ok(_) => format!("completes ({} result)", if o.verdict == "correct" { "true" } else { "untrue" }),
+                            other => outcome_class(other),
+                        };
+                        let key = format!(
+                            "{} d={} path_len={}{}: {}",
+                            c.instr.name(),
+                            c.d,
+                            p.len(),
+                            if node.is_some() { " node_replaced" } else { "" },
+                            class
+                        );
+                        *shapes.entry(key).or_insert(0) += 1;
+                    }
+                }
+                if k == cases.len() / 2 {
+                    sample = Some(c.to_json());
+                }
+            }
+            (m, shapes, cases.len() as u64, sample)
+        })
+        .collect();
+    let mut mtree_stats: BTreeMap<MI, Stats> = BTreeMap::new();
+    let mut shape_hist: BTreeMap<String, u64> = BTreeMap::new();
+    let mut mtree_cases = 0u64;
+    for (k, (m, sh, n, sample)) in per_tree.into_iter().enumerate() {
+        for (mi, st) in m {
+            let e = mtree_stats.remove(&mi).unwrap_or_default();
+            mtree_stats.insert(mi, e.merge(st));
+        }
+        for (key, v) in sh {
+            *shape_hist.entry(key).or_insert(0) += v;
+        }
+        mtree_cases += n;
+        if k % (trees.len() / 3 + 1) == 0 {
+            if let Some(s) = sample {
+                ctx.sample(s);
+            }
+        }
+    }
+    let shape_cases: u64 = shape_hist.values().sum();
+    if shape_cases > 0 {
+        ctx.note(format!(
+            "host-contract SHAPE violations (Merkle path whose length differs from the depth operand; information only, not counted as violations): {} runs; observed classes: {}",
+            shape_cases,
+            shape_hist.iter().map(|(k, v)| format!("[{k}] x{v}")).collect::<Vec<_>>().join("; ")
+        ));
+        ctx.note("reading: MPVERIFY (mtree_get / mtree_verify) never compares the length of the path it receives with the depth operand d, so a host that answers with a consistent (node, path) pair of ANOTHER depth makes the run complete for a node that is not at depth d; MRUPDATE (mtree_set) asserts path.len() == d and panics instead");
+    }
+
+    let t_mtree = ctx.elapsed();
+    // -------------------------------------------------------------------------------------- advice
+    let acases = advice_cases();
+    let mut advice_stats = Stats::default();
+    for c in &acases {
+        check_advice_case(ctx, &progs, c, &mut advice_stats, false);
+    }
+    ctx.sample(json!({"family": "advice", "prog": acases[7].prog, "len": acases[7].len}));
+
+    // ------------------------------------------------------------------------------------ evidence
+    let mut per_instr = serde_json::Map::new();
+    let mut evaluations = 0u64;
+    let mut nontrivial = 0u64;
+    let mut completions_dishonest_wrong = 0u64;
+    for (hi, st) in &hint_stats {
+        per_instr.insert(hi.name().into(), st.to_json());
+        evaluations += st.pairs;
+        nontrivial += st.nontrivial;
+        completions_dishonest_wrong += st.wrong;
+        ctx.count(&format!("{}:pairs", hi.name()), st.pairs);
+        ctx.count(&format!("{}:completions", hi.name()), st.completions);
+        ctx.count(&format!("{}:wrong_completions", hi.name()), st.wrong);
+        ctx.count(&format!("{}:refusals", hi.name()), st.refusals + st.panics);
+    }
+    for (mi, st) in &mtree_stats {
+        per_instr.insert(mi.name().into(), st.to_json());
+        evaluations += st.pairs;
+        nontrivial += st.nontrivial;
+        completions_dishonest_wrong += st.wrong;
+        ctx.count(&format!("{}:pairs", mi.name()), st.pairs);
+        ctx.count(&format!("{}:completions", mi.name()), st.completions);
+        ctx.count(&format!("{}:wrong_completions", mi.name()), st.wrong);
+        ctx.count(&format!("{}:refusals", mi.name()), st.refusals + st.panics);
+    }
+    per_instr.insert("adv_push/adv_loadw/adv_pipe".into(), advice_stats.to_json());
+    evaluations += advice_stats.pairs + shape_cases;
+    assert!(mtree_cases >= shape_cases);
+
+    let cov = json!({
+        "evaluations": evaluations,
+        "distinct_nontrivial": nontrivial,
+        "rule": "case = (instruction, operand tuple, host content); enumerated as the full product of the stated operand sets with the stated hint sets / deviation lists (duplicates removed per operand). A case is non-trivial when the host content differs from what the honest host would have supplied for that operand (scripted hint tuple != honest hint tuple; Merkle store entry / node / path element != honest one); honest-host runs and dishonest runs whose script equals the honest answer are counted in evaluations only",
+        "exhaustive": true,
+        "per_instruction": per_instr,
+        "wrong_completions_total": completions_dishonest_wrong,
+        "hint_family": {
+            "groups (instruction, operand tuple)": groups.len(),
+            "u32_operands": u32_operands(tier).len(),
+            "ilog2_operands": ilog2_operands(tier).len(),
+            "counting_hints": format!("0..={} and 2^32-1, 2^32, 2^63, p-1", tier.pick(70, 130)),
+            "ext2_alphabet": ext2_alphabet(tier),
+            "ext2_hints": "all pairs over {0, 1, p-1, honest limbs, honest limbs +-1} (thorough: and 2, 2^32)",
+            "u64_limb_alphabet": [0u64, 1, 2, 1u64 << 31, 0xffff_ffffu64],
+            "u64_hints": format!(
+                "limbs (q_lo, q_hi, r_lo, r_hi): at most {} limb(s) replaced by one of honest+1, honest-1, 0, 1, 2^32-1, 2^32; then all four limbs over {}; divisor 0: all tuples over {{0,1,2^32-1}} and (q,r) = (0,a), (a,0)",
+                tier.pick(1, 2),
+                tier.pick("{0, 1, honest+1}", "{0, 1, 2^32-1, 2^32, honest+1, honest-1}")
+            ),
+            "injector_refusal": "when the honest injector returns an error (ilog2 0, zero divisor, zero ext2 element) the dishonest host pushes the scripted hint instead",
+        },
+        "mtree_family": {
+            "trees": trees.len(),
+            "depths": [1, 2, 3],
+            "leaf_words": "2 distinct words derived from VERIF_SEED, every assignment to the leaves (depth 3 in the quick tier: 14 patterns: all-equal, alternating, half/half, pairs, one-hot x8, one-cold x2)",
+            "cases": mtree_cases,
+            "nodes": "every (d, i) with 1 <= d <= depth",
+            "deviations": "lying store: for every on-path inner node its left / right child replaced by each of {A, B, foreign word, zero word, the other child, the root}, children swapped, entry removed; answers: node replaced by {A, B, foreign, zero, sibling, parent}; each path element replaced by {A, B, foreign, zero, the node itself, the root}; node and one path element replaced together; path of a second tree of the same store",
+            "shape_violation_runs_information_only": shape_cases,
+        },
+        "advice_family": {"cases": acases.len(), "programs": progs.advice.len(), "advice_stack_lengths": "0, need-1, need, need+1, 24"},
+        "phase_seconds": {"hint_family": t_hint, "mtree_family": t_mtree - t_hint},
+        "bounds": "one dishonest hint per run, then all hints of the run dishonest (u64 division: two in the thorough tier); operands and hints only from the stated alphabets",
+    });
+    ctx.finish(
+        "fault_enumeration",
+        cov,
+        &[
+            "Rpo256::merge is the trusted primitive of the Merkle reference; hash collisions are not considered",
+            "a panic or an ExecutionError both count as 'does not complete'",
+            "only executions are examined (processor::execute incl. trace construction); proving is not part of this check",
+            "u32 counting instructions are only given operands < 2^32 and u64 procedures only 32-bit limbs (documented as undefined / unchecked otherwise)",
+            "a Merkle path of the wrong length is a violation of the Host contract's shape and is reported as information only",
+            "none of the instructions in scope reads the advice map, so advice-map content is not varied; the advice stack below the hint is empty (a longer advice stack is only used by the adv_push / adv_loadw / adv_pipe family)",
+        ],
+    )
 }
